@@ -63,7 +63,8 @@ CHECKS["C08"] = dict(
          "negative, seam, overflow) are checked by TLC for in-bounds result, no-op in bounds, idempotence, and every input is "
          "replayed on the real spaces; the attempt loops of all six valid-state samplers are TLA+ state machines whose every "
          "valid/invalid outcome script is replayed on the real samplers through a scripted validity checker; recorded sampler "
-         "outputs (uniform/near/Gaussian, compound/subspace/wrapper) are validated by TLC against SamplerContract.",
+         "outputs (uniform/near/Gaussian, compound/subspace/wrapper, airplane / space-time / constrained spaces) are validated "
+         "by TLC against SamplerContract.",
     note="Off the lattice only the laws are judged; seeds are sampled (50 quick / 500 thorough); RNG is not scripted.",
     technique="TLA+ lattice model + TLC, model-generated case replay, scripted-validity replay of sampler state machines, TLC trace validation",
     design="3/C06-C08")
@@ -99,7 +100,8 @@ CHECKS["C06"] = dict(
          "time, discrete, torus, SE(2), SE(3) and nested weighted compounds; TLC checks the metric laws on the model over all "
          "pairs/triples and emits every lattice input with its expected distance (M3); the real distance / equalStates / "
          "getMaximumExtent are compared on ~100k (0.8M) cases; for spaces without an exact model (Moebius, Klein bottle, sphere, "
-         "Dubins, Reeds-Shepp, wrappers, random/near-coincident/seam/antipodal points) recorded fixed-point observations are "
+         "Dubins, Reeds-Shepp, the 3-D Dubins airplane spaces, space-time, empty, constrained spaces as wrappers, random/"
+         "near-coincident/seam/antipodal points) recorded fixed-point observations are "
          "validated by TLC against SpaceLaws.tla - exactly the laws each space claims through isMetricSpace()/hasSymmetricDistance().",
     note="Off the lattice only the laws are judged, with each space's own resolution (Dubins 2e-6, SO(3) 4.5e-5, float sphere "
          "1e-4) as tolerance; compound weights strictly positive; bounded time only for the extent clause.",
@@ -109,7 +111,8 @@ CHECKS["C07"] = dict(
     level="exploration",
     text="The same lattice models give exact interpolants for t, s, u in eighths (endpoints, in-bounds, aliasing, "
          "re-parameterisation, geodesic proportionality checked by TLC on the model; SO(2) antipodal ties admit either arc); "
-         "~200k (1.4M) emitted cases are compared with the real interpolate; recorded probes of every shipped space and "
+         "~200k (1.4M) emitted cases are compared with the real interpolate; recorded probes of every shipped space (38, incl. "
+         "the airplane spaces, space-time, empty and the constrained spaces) and "
          "nested compound are validated by TLC against SpaceLaws.tla (re-parameterisation and proportionality only for the "
          "spaces the property lists).",
     note="Off the lattice: laws only, fixed-point observations with per-space tolerance; discrete/hybrid spaces exempt from the "
@@ -134,8 +137,10 @@ CHECKS["C01"] = dict(
     level="exploration",
     text="TLC enumerates every planning configuration of the 3x3 cell world up to symmetry (5478: obstacle layout x start x "
          "goal; model-determined facts: start/goal free, 8-reachability) and a bounded 4x4 part; a stratified sample (all of "
-         "them in the thorough tier's R^2 pass) is instantiated for all 41 registered planners in R^2, SE(2), R^3, SE(3), a "
-         "weighted compound, Reeds-Shepp and Dubins under evaluation budgets; every solve report carries facts from an "
+         "them in the thorough tier's R^2 pass) is instantiated for all 45 registered planners in R^2, SE(2), R^3, SE(3), a "
+         "weighted compound, Reeds-Shepp and Dubins, with four query variants (single, several starts, GoalStates, "
+         "non-sampleable region) and with the planners' declared parameters swept through the ParamSet, under evaluation "
+         "budgets, every run in its own process; every solve report carries facts from an "
          "oracle independent of the planner (own validity predicate, dense re-sampling along interpolate, recomputed goal "
          "distance, motion re-check) and is judged by TLC against PlannerContract.tla, which also re-validates each path on "
          "the abstract map (free 8-connected cell walk from the start cell, reachability).",
@@ -148,8 +153,11 @@ CHECKS["C03"] = dict(
     text="PlannerLifecycle.tla models the planner life cycle (bind definition, change query, setup, solve(k), clear, "
          "clearQuery, getPlannerData, destroy) with the documented protocol; TLC checks NoStaleQuery and exports the state "
          "graph; histories are walks through it plus the k-sweep solve(k); solve(k2) with the termination condition first "
-         "firing at every evaluation index k = 0,1,2,...; they are executed on all 41 planners over an allocation-counting "
-         "state space; each recorded execution is replayed through the same TLA+ actions and every report is judged by "
+         "firing at every evaluation index k = 0,1,2,..., plus a targeted block for 'clear() forgets the old query' (multi-goal "
+         "first query behind a detour, continued solves, clear / new definition, new query where the old far goal was); they "
+         "are executed on all 45 planners (declared parameters swept) over an allocation-counting state space; the "
+         "PlannerInputStates cursor and the lazy goal-sampling thread have their own models (InputStates.tla, GoalLazy.tla); "
+         "the control planners have a life-cycle add-on; each recorded execution is replayed through the same TLA+ actions and every report is judged by "
          "PlannerLifecycleTrace: status truthful, nothing empty/half-built, path facts of C01 for every added solution, return "
          "within k+B evaluations, nothing lost or worse, fresh planner forgets old queries, no leak / double free, no crash/hang.",
     note="Bound B after the k-th evaluation: 24 (400 for multi-threaded planners); k-sweep for single-threaded planners only; "
@@ -161,11 +169,12 @@ CHECKS["C04"] = dict(
     text="Ranking: SolutionSet.tla transcribes PlannerSolution::operator<; TLC proves it a strict weak order equal to the "
          "documented ranking on homogeneous sets, explores every add/clear history (multisets of <= 4 over 8 rank classes) and "
          "every transition + random walks are replayed on the real ProblemDefinition; recorded histories are validated by TLC. "
-         "Costs: continued solves of all 20 optimizing planners under 5 objectives are recorded with independently recomputed "
+         "Costs: continued solves (and a re-query after clearQuery) of all 20 optimizing planners under 6 objectives, with "
+         "swept parameters, are recorded with independently recomputed "
          "costs and judged by PlannerCostTrace (stored never better than true, equal unless propagation is deferred, true never "
          "better than the admissible lower bound, optimized iff threshold met, best stored cost never worse, best first).",
-    note="Ranking judged on homogeneous sets only. Cost tolerance 4e-5 abs + 1e-5 rel. Max-min clearance objective not included "
-         "(DESIGN.md C04 limits). Planner runs are sampled (environments, seeds, budgets).",
+    note="Ranking judged on homogeneous sets only. Cost tolerance 4e-5 abs + 1e-5 rel. Planner runs are sampled (environments, "
+         "seeds, budgets, parameters).",
     technique="TLA+ spec of the comparator + TLC; state-graph replay; TLC trace validation of recorded cost reports",
     design="3/C04")
 CHECKS["C12"] = dict(
@@ -226,7 +235,11 @@ CHECKS["C19"] = dict(
          "guarded hooks (thread, resource, read/write, atomicity from the declared type, measured lockset, fork/join) are "
          "validated by TLC against SharedMemTrace.tla: vector-clock/lockset data-race rule plus contract events (counters = "
          "calls, seeds = sequential set, unique names, complete ranked solution set, exact GNAT answers, terminate observed "
-         "and sticky); multi-threaded planners judged by the single-threaded PlannerContract on sampled schedules.",
+         "and sticky). Inside the multi-threaded planners: protocol models PRRT, PSBL, PRMTwoThread, CForestShare, APSShare, "
+         "GoalStatesSample at the code's atomicity (safety + termination under fairness; the uncorrected transcription must "
+         "fail as a vacuity gate), hooked runs of pRRT, pSBL, PRM, CForest, AnytimePathShortening under seeded schedule "
+         "perturbation validated by TLC (race rule with lock-edge happens-before, mutex-ownership rules, PSBLTrace protocol "
+         "rules), and every run judged by the single-threaded PlannerContract.",
     note="Only hooked resources are seen; real schedules are sampled (interleavings enumerated on the model only); lock "
          "ownership read from glibc's mutex owner field.",
     technique="TLA+ protocol model + TLC; TLC trace validation of hook traces against a happens-before/lockset race rule",
@@ -237,7 +250,7 @@ CHECKS["C20"] = dict(
          "all call histories and emits them; each history runs in its own fresh process and TLC (Determinism.tla) validates that "
          "equal abstract seeds gave equal values across processes. RngStream.tla models one RNG with its distribution caches; "
          "TLC checks ReseedReproduces (and sees the stale-cache variant fail); every pre/reseed/post scenario is replayed "
-         "bitwise. Every single-threaded planner runs twice in separate processes per problem/seed/budget; the complete "
+         "bitwise. Every single-threaded planner (declared parameters swept) runs twice in separate processes per problem/seed/budget; the complete "
          "outcomes (status, evaluation count, hash of all validity queries, solution bits) are validated by TLC.",
     note="Same binary and machine; separate processes. Planner runs sampled.",
     technique="TLA+ spec + TLC; fresh-process scenario replay; TLC validation of paired run observations",
